@@ -1,5 +1,5 @@
 (* C10 — property theorems only. *)
-Require Import V.Lib V.C10_Model V.C10_Proofs.
+Require Import V.Lib V.C10_Model V.C10_Proofs V.C10_Total.
 Open Scope N_scope.
 
 (* ---------------------------------------------------------------------------------------- *)
@@ -479,3 +479,83 @@ Example C10_comment_of_any_length_insignificant_nonvacuous :
   map (fun t => (t_line t, t_text t)) (lex (bs "a b #"%string ++ repeat 120 5000 ++ NL :: bs "c"%string)) =
     [(1%Z, bs "a"%string); (1%Z, bs "b"%string); (2%Z, bs "c"%string)].
 Proof. exact c10_comment_witness. Qed.
+
+(* ---------------------------------------------------------------------------------------- *)
+(* UNIVERSAL TERMINATION AND TOTALITY                                                         *)
+(* ---------------------------------------------------------------------------------------- *)
+
+(* For EVERY token list — arbitrary, ill-formed included: unbalanced braces, stray commas, keys
+   without blocks, snippet definitions — that holds no import directive (no token whose text, as
+   written or after environment expansion, is `import`), for every environment, import bound and
+   world oracle: the parser run with fuel = number of tokens + 4 returns server blocks or one of
+   the error classes; it is never out of fuel, never panics (every checked index / slice of
+   parse.go stays in range) and never asks the world oracle. *)
+Theorem C10_parse_total_no_imports : forall env maxi globs files toks fuel,
+  forallb (fun t => negb (beq (t_text t) IMPORT) && negb (beq (renv env (t_text t)) IMPORT)) toks = true ->
+  (length toks + 4 <= fuel)%nat ->
+  (exists bl, parse_tokens env maxi globs files fuel toks = POk bl) \/
+  (exists e, parse_tokens env maxi globs files fuel toks = PErr e).
+Proof. exact parse_total_no_imports. Qed.
+Print Assumptions C10_parse_total_no_imports.
+
+Example C10_parse_total_no_imports_nonvacuous :
+  forallb (noimpb std_env) TotalExample.soup1 = true /\ forallb (noimpb std_env) TotalExample.soup2 = true /\
+  parse_tokens std_env 10000 [] [] (total_fuel (length TotalExample.soup1)) TotalExample.soup1 = PErr ESyntax /\
+  (exists bl, parse_tokens std_env 10000 [] [] (total_fuel (length TotalExample.soup2)) TotalExample.soup2 = POk bl /\ length bl = 1%nat).
+Proof. exact TotalExample.no_imports_witness. Qed.
+
+(* For EVERY token list WITH imports (files, globs, snippets, snippets and files importing each
+   other, cycles of any shape), every environment, every import bound maxi and every world oracle
+   whose glob answers splice at most L0 tokens (L0 also bounds the input): run with the explicit
+   fuel  tokens + 4 + L0 * (2^maxi - 1)  the parser is never out of fuel and never panics — the
+   result is server blocks, an error class (the too-many-imports error when the bound is hit) or
+   PUnknown (the oracle was not told about a pattern).  The potential that decreases at every loop
+   iteration of parseAll / addresses / directives / directive / snippetTokens is
+   (tokens - cursor) + L0 * (2^maxi - 2^imports): an import lowers it by two.  The bound is
+   exponential in maxi because a snippet body is only bounded by the token list it was cut from. *)
+Theorem C10_parse_total_bounded_imports : forall env maxi globs files toks L0 fuel,
+  (Z.of_nat (length toks) <= L0)%Z ->
+  (forall f pat ids ts, lookup_g globs f pat = Some ids -> import_files files ids = POk ts ->
+                        (Z.of_nat (length ts) <= L0)%Z) ->
+  (length toks + 4 + Z.to_nat (L0 * (2 ^ Z.of_N maxi - 1)) <= fuel)%nat ->
+  parse_tokens env maxi globs files fuel toks <> PFuel /\ parse_tokens env maxi globs files fuel toks <> PPanic.
+Proof. exact parse_total_bounded_imports. Qed.
+Print Assumptions C10_parse_total_bounded_imports.
+
+Example C10_parse_total_bounded_imports_nonvacuous :
+  (forall f pat ids ts, lookup_g TotalExample.wglobs f pat = Some ids -> import_files TotalExample.wfiles ids = POk ts ->
+     (Z.of_nat (length ts) <= 13)%Z) /\
+  (Z.of_nat (length TotalExample.main) <= 13)%Z /\
+  parse_tokens [] 3 TotalExample.wglobs TotalExample.wfiles (import_fuel 3 (length TotalExample.main) 13) TotalExample.main = PErr ECycle /\
+  (exists bl, parse_tokens [] 4 TotalExample.wglobs [(1, Some [TotalExample.tk 1 1 "root"%string; TotalExample.tk 1 1 "/srv"%string])]
+                (import_fuel 4 (length TotalExample.main) 13) TotalExample.main = POk bl).
+Proof. split; [exact TotalExample.wglobs_bounded|exact TotalExample.bounded_imports_witness]. Qed.
+
+(* The executable reference used for the soup stream of the correspondence harness (kind 1 cases:
+   the model run with the PROVED fuel tokens+4 and the implementation's own import bound 10000)
+   answers server blocks or an error class for every input text without import directives. *)
+Theorem C10_soup_reference_total : forall env globs files inp,
+  forallb (noimpb env) (lex inp) = true -> is_res (parse_soup env globs files inp) = true.
+Proof. exact parse_soup_result. Qed.
+Print Assumptions C10_soup_reference_total.
+
+Example C10_soup_reference_total_nonvacuous :
+  forallb (noimpb std_env) (lex (bs "a.com, { dir { x } } } { {$V_BR} "%string)) = true /\
+  parse_soup std_env [] [] (bs "a.com, { dir { x } } } { {$V_BR} "%string) = PErr ESyntax.
+Proof. split; vm_compute; reflexivity. Qed.
+
+(* Parsing terminates for ALL inputs, with a fuel that is an explicit function of the sizes alone: for
+   every environment, import bound, world (glob answers and file contents) and token list, the fuel
+   world_fuel = tokens + 4 + L * (2^maxi - 1), L = max (tokens, largest glob answer of the world),
+   never yields OutOfFuel or PPanic; with no import allowed it is tokens + 4. *)
+Theorem C10_parse_total_world : forall env maxi globs files toks fuel,
+  (world_fuel maxi files globs (length toks) <= fuel)%nat ->
+  parse_tokens env maxi globs files fuel toks <> PFuel /\ parse_tokens env maxi globs files fuel toks <> PPanic.
+Proof. exact parse_total_world. Qed.
+Print Assumptions C10_parse_total_world.
+
+Example C10_parse_total_world_nonvacuous :
+  world_fuel 0 TotalExample.wfiles TotalExample.wglobs (length TotalExample.main) = (length TotalExample.main + 4)%nat /\
+  parse_tokens [] 3 TotalExample.wglobs TotalExample.wfiles
+    (world_fuel 3 TotalExample.wfiles TotalExample.wglobs (length TotalExample.main)) TotalExample.main = PErr ECycle.
+Proof. split; [apply world_fuel_0|vm_compute; reflexivity]. Qed.
